@@ -124,47 +124,51 @@ Fixpoint ex_group_push (k : str) (f : rsel) (g : egroups) : egroups :=
       if streq k k' then (k', (f0, rest ++ [f])) :: r else (k', (f0, rest)) :: ex_group_push k f r
   end.
 
-(* collect_fields; None = out of fuel *)
+(* collect_fields over one list of selections, with the recursion into fragments and inline fragments as a
+   parameter; None = out of fuel *)
+Fixpoint ex_collect_sels (rec : list rsel -> list str -> egroups -> option (list str * egroups))
+                         (cx : ectx) (otn : str) (oimpls : list str) (l : list rsel)
+                         (visited : list str) (groups : egroups) : option (list str * egroups) :=
+  match l with
+  | [] => Some (visited, groups)
+  | x :: r =>
+      if ex_skipped x (ex_vars cx) then ex_collect_sels rec cx otn oimpls r visited groups
+      else
+        match x with
+        | RsField _ _ _ _ _ _ => ex_collect_sels rec cx otn oimpls r visited (ex_group_push (rs_key x) x groups)
+        | RsSpread name _ =>
+            if existsb (streq name) visited then ex_collect_sels rec cx otn oimpls r visited groups
+            else
+              let visited := name :: visited in
+              match ex_find_frag name (ex_frags cx) with
+              | None => ex_collect_sels rec cx otn oimpls r visited groups
+              | Some fr =>
+                  if ex_type_applies (ex_schema cx) otn oimpls (rfr_cond fr) then
+                    match rec (rfr_sels fr) visited groups with
+                    | None => None
+                    | Some (visited, groups) => ex_collect_sels rec cx otn oimpls r visited groups
+                    end
+                  else ex_collect_sels rec cx otn oimpls r visited groups
+              end
+        | RsInline cond _ sub =>
+            if match cond with
+               | Some c => ex_type_applies (ex_schema cx) otn oimpls c
+               | None => true
+               end
+            then
+              match rec sub visited groups with
+              | None => None
+              | Some (visited, groups) => ex_collect_sels rec cx otn oimpls r visited groups
+              end
+            else ex_collect_sels rec cx otn oimpls r visited groups
+        end
+  end.
+
 Fixpoint ex_collect (fuel : nat) (cx : ectx) (otn : str) (oimpls : list str) (sels : list rsel)
                     (visited : list str) (groups : egroups) : option (list str * egroups) :=
   match fuel with
   | O => None
-  | S fuel =>
-      (fix go (l : list rsel) (visited : list str) (groups : egroups) : option (list str * egroups) :=
-         match l with
-         | [] => Some (visited, groups)
-         | x :: r =>
-             if ex_skipped x (ex_vars cx) then go r visited groups
-             else
-               match x with
-               | RsField _ _ _ _ _ _ => go r visited (ex_group_push (rs_key x) x groups)
-               | RsSpread name _ =>
-                   if existsb (streq name) visited then go r visited groups
-                   else
-                     let visited := name :: visited in
-                     match ex_find_frag name (ex_frags cx) with
-                     | None => go r visited groups
-                     | Some fr =>
-                         if ex_type_applies (ex_schema cx) otn oimpls (rfr_cond fr) then
-                           match ex_collect fuel cx otn oimpls (rfr_sels fr) visited groups with
-                           | None => None
-                           | Some (visited, groups) => go r visited groups
-                           end
-                         else go r visited groups
-                     end
-               | RsInline cond _ sub =>
-                   if match cond with
-                      | Some c => ex_type_applies (ex_schema cx) otn oimpls c
-                      | None => true
-                      end
-                   then
-                     match ex_collect fuel cx otn oimpls sub visited groups with
-                     | None => None
-                     | Some (visited, groups) => go r visited groups
-                     end
-                   else go r visited groups
-               end
-         end) sels visited groups
+  | S fuel => ex_collect_sels (ex_collect fuel cx otn oimpls) cx otn oimpls sels visited groups
   end.
 
 (* ---------------------------------------------------------------- argument coercion *)
